@@ -234,6 +234,10 @@ def _fmt_cases(tier):
                                   "reader": rd})
         cases.append({"part": "fmt", "shape": list(shape), "kind": "float64", "ext": ".fits", "sep": None,
                       "reader": "fits-table"})
+        # FITS files whose primary HDU is empty and whose image sits in the first extension (multi-extension files)
+        for rd in ("image", "m-image", "m-charge"):
+            cases.append({"part": "fmt", "shape": list(shape), "kind": "float64", "ext": ".fits", "sep": None,
+                          "reader": rd, "layout": "ext1"})
     return cases
 
 
@@ -244,7 +248,7 @@ def _n_fmt(tier):
         per_shape += 5 * (2 + mimg + 1)                                   # .txt
         per_shape += 5 * (2 + (0 if tier == "quick" else mimg + 1))       # .data
         per_shape += 5                                                    # .csv
-    per_shape += len(BIN_DTYPES) * (4 + 3) + 1
+    per_shape += len(BIN_DTYPES) * (4 + 3) + 1 + 3
     return per_shape * len(FMT_SHAPES)
 
 
@@ -258,8 +262,8 @@ def _run_fmt(case):
     rd = case["reader"]
 
     def bad(code, what):
-        viol.append(({"part": "fmt", "reader": rd, "ext": case["ext"], "sep": case["sep"], "code": code,
-                      "cols": "1col" if shape[1] == 1 else "ncol"},
+        viol.append(({"part": "fmt", "reader": rd, "ext": case["ext"] + ("[ext1]" if case.get("layout") else ""),
+                      "sep": case["sep"], "code": code, "cols": "1col" if shape[1] == 1 else "ncol"},
                      f"{rd} of a {shape} '{case['kind']}' file{case['ext']} (sep={case['sep']}): {what}"))
 
     with Scratch() as d:
@@ -283,7 +287,10 @@ def _run_fmt(case):
             else:
                 from astropy.io import fits
 
-                fits.writeto(path, arr, overwrite=True)
+                if case.get("layout") == "ext1":
+                    fits.HDUList([fits.PrimaryHDU(), fits.ImageHDU(arr, name="SCI")]).writeto(path, overwrite=True)
+                else:
+                    fits.writeto(path, arr, overwrite=True)
             exp = arr.astype("float64")
             shown = arr.tolist()
         try:
@@ -301,7 +308,7 @@ def _run_fmt(case):
                 bad("shape", f"returned shape {None if got is None else np.shape(got)}, written {shape} (content {shown})")
             elif not _same(got, exp):
                 bad("values", f"returned {_txt(got)}, file holds {shown}")
-    return {"viol": viol, "sig": cfgx.sig([case["shape"], case["kind"], case["ext"], case["sep"], rd]),
+    return {"viol": viol, "sig": cfgx.sig([case["shape"], case["kind"], case["ext"], case["sep"], rd, case.get("layout")]),
             "nontrivial": got is not None, "n": 1, "outcome": _txt(got)[:200]}
 
 
